@@ -1,1 +1,392 @@
-fn main() {}
+//! C19 — deterministic math is bit-stable and canonical.
+//!
+//! This binary is built once per optimisation profile by `lib/c19_driver.py`.
+//! Modes:
+//!  * `--mode emit --scopes spot,quick --out F` — evaluate every operation of the
+//!    catalogue over its input space, run the in-build invariant monitors, write one
+//!    BLAKE3 digest per (scope, op, block) plus monitor results as JSON;
+//!  * `--mode dump --scope S --op NAME --block B --out F` — raw per-sample records
+//!    of one block (driver bisects a differing block to the sample);
+//!  * `--mode explain --scope S --op NAME (--block B --index I | --inputs h,h,..)` —
+//!    one sample as JSON (inputs, status, outputs, monitor hits);
+//!  * `--mode report --summary F` — turn the driver's merged summary into the
+//!    evidence file / VIOLATION lines through `verif_core::Report`.
+
+mod inputs;
+mod ops;
+
+use std::sync::atomic::{AtomicUsize, Ordering};
+use std::sync::Mutex;
+
+use inputs::{Scope, Spaces};
+use ops::{fam_block_len, fam_blocks, fam_input, fam_win, op_by_name, run_block, run_one, Mon, OpDef, CL_FINITE, MAX_IN, OPS, RULE_NAMES, ST_OK, ST_PANIC, ST_SKIP};
+use verif_core::{hex, json, Args, Report, Value};
+
+fn main() {
+    let args = Args::parse();
+    if args.prop != "C19" {
+        println!("HARNESS-ERROR unknown property {}", args.prop);
+        std::process::exit(2);
+    }
+    let mode = args.extra.get("mode").map_or("", String::as_str).to_owned();
+    // evaluator panics are data here; keep stderr quiet
+    if mode != "report" {
+        std::panic::set_hook(Box::new(|_| {}));
+    }
+    let code = match mode.as_str() {
+        "emit" => emit(&args),
+        "dump" => dump(&args),
+        "explain" => explain(&args),
+        "report" => report(&args),
+        other => {
+            println!("HARNESS-ERROR verif-math needs --mode emit|dump|explain|report (got {other:?}); it is driven by lib/c19_driver.py");
+            2
+        }
+    };
+    std::process::exit(code);
+}
+
+fn scope_of(s: &str) -> Option<Scope> {
+    match s {
+        "spot" => Some(Scope::Spot),
+        "quick" => Some(Scope::Quick),
+        "thorough" => Some(Scope::Thorough),
+        _ => None,
+    }
+}
+
+fn as_bytes(w: &[u32]) -> &[u8] {
+    // SAFETY: u32 has no padding and any alignment ≥ 1 is fine for u8; little-endian host
+    // (x86_64) — all profiles run on the same machine so byte order is common to all.
+    unsafe { std::slice::from_raw_parts(w.as_ptr().cast::<u8>(), w.len() * 4) }
+}
+
+#[inline]
+fn canon_nan(w: u32) -> u32 {
+    if w & 0x7f80_0000 == 0x7f80_0000 && w & 0x007f_ffff != 0 {
+        0x7fc0_0000
+    } else {
+        w
+    }
+}
+
+struct BlockResult {
+    scope: Scope,
+    op: &'static str,
+    b: u64,
+    n: u64,
+    d: String,
+    dn: Option<String>,
+    dr: Option<String>,
+    panics: u64,
+    skipped: u64,
+    nonfinite: u64,
+}
+
+fn digest_block(sp: &Spaces, op: &OpDef, b: u64, mon: &mut Mon) -> BlockResult {
+    let mut hd = blake3::Hasher::new();
+    let mut hn = blake3::Hasher::new();
+    let mut hr = blake3::Hasher::new();
+    let (mut panics, mut skipped, mut nonfinite) = (0u64, 0u64, 0u64);
+    let mut tmp: Vec<u32> = Vec::new();
+    run_block(sp, op, b, mon, |status, class, words, _start| {
+        for s in status {
+            panics += u64::from(*s == ST_PANIC);
+            skipped += u64::from(*s == ST_SKIP);
+        }
+        if !op.split {
+            hd.update(status);
+            hd.update(as_bytes(words));
+        } else {
+            for (k, (s, c)) in status.iter().zip(class).enumerate() {
+                let w = &words[k * op.wout..(k + 1) * op.wout];
+                if *c == CL_FINITE {
+                    hd.update(&[*s]);
+                    hd.update(as_bytes(w));
+                } else {
+                    nonfinite += 1;
+                    hr.update(&[*s]);
+                    hr.update(as_bytes(w));
+                    tmp.clear();
+                    tmp.extend(w.iter().map(|x| canon_nan(*x)));
+                    hn.update(&[*s]);
+                    hn.update(as_bytes(&tmp));
+                }
+            }
+        }
+    });
+    BlockResult {
+        scope: sp.scope,
+        op: op.name,
+        b,
+        n: fam_block_len(sp, op.fam, b),
+        d: hex(hd.finalize().as_bytes()),
+        dn: op.split.then(|| hex(hn.finalize().as_bytes())),
+        dr: op.split.then(|| hex(hr.finalize().as_bytes())),
+        panics,
+        skipped,
+        nonfinite,
+    }
+}
+
+fn input_set_digest(sp: &Spaces) -> String {
+    let mut h = blake3::Hasher::new();
+    h.update(as_bytes(&sp.edges));
+    h.update(as_bytes(&sp.iset));
+    h.update(as_bytes(&sp.spot_unary));
+    for j in &sp.jset {
+        h.update(&j.to_le_bytes());
+    }
+    // plus a thin sample of every family's generated inputs
+    let mut inp = [0u32; MAX_IN];
+    for op in OPS {
+        let nb = fam_blocks(sp, op.fam);
+        for b in [0, nb / 2, nb - 1] {
+            let n = fam_block_len(sp, op.fam, b);
+            for i in [0, n / 3, n - 1] {
+                inp.fill(0);
+                let c = fam_input(sp, op.fam, b, i, &mut inp);
+                h.update(&[c]);
+                h.update(as_bytes(&inp));
+            }
+        }
+    }
+    hex(h.finalize().as_bytes())
+}
+
+fn emit(args: &Args) -> i32 {
+    let Some(out) = args.extra.get("out") else {
+        println!("HARNESS-ERROR emit needs --out");
+        return 2;
+    };
+    let scopes: Vec<Scope> = args.extra.get("scopes").map_or("spot", String::as_str).split(',').filter_map(scope_of).collect();
+    let only_ops: Option<Vec<&str>> = args.extra.get("ops").map(|s| s.split(',').collect());
+    let t0 = std::time::Instant::now();
+    let spaces: Vec<Spaces> = scopes.iter().map(|s| Spaces::new(*s, args.seed)).collect();
+    let mut items: Vec<(usize, usize, u64)> = Vec::new();
+    for (si, sp) in spaces.iter().enumerate() {
+        for (oi, op) in OPS.iter().enumerate() {
+            if only_ops.as_ref().is_some_and(|l| !l.contains(&op.name)) {
+                continue;
+            }
+            for b in 0..fam_blocks(sp, op.fam) {
+                items.push((si, oi, b));
+            }
+        }
+    }
+    let next = AtomicUsize::new(0);
+    let results: Mutex<Vec<BlockResult>> = Mutex::new(Vec::new());
+    let mons: Mutex<Mon> = Mutex::new(Mon::default());
+    let jobs = args.jobs.max(1);
+    std::thread::scope(|s| {
+        for _ in 0..jobs {
+            s.spawn(|| {
+                let mut mon = Mon::default();
+                let mut local = Vec::new();
+                loop {
+                    let k = next.fetch_add(1, Ordering::Relaxed);
+                    if k >= items.len() {
+                        break;
+                    }
+                    let (si, oi, b) = items[k];
+                    local.push(digest_block(&spaces[si], &OPS[oi], b, &mut mon));
+                }
+                results.lock().unwrap_or_else(std::sync::PoisonError::into_inner).extend(local);
+                mons.lock().unwrap_or_else(std::sync::PoisonError::into_inner).merge(mon);
+            });
+        }
+    });
+    let mut results = results.into_inner().unwrap_or_else(std::sync::PoisonError::into_inner);
+    results.sort_by(|a, b| (a.scope.as_str(), a.op, a.b).cmp(&(b.scope.as_str(), b.op, b.b)));
+    let mon = mons.into_inner().unwrap_or_else(std::sync::PoisonError::into_inner);
+
+    // G: behaviour on non-finite trig inputs is an observation, not part of the diff
+    let mut nonfinite_trig = serde_json::Map::new();
+    for (nm, bits) in [("+inf", 0x7f80_0000u32), ("-inf", 0xff80_0000), ("nan", 0x7fc0_0000)] {
+        let r = std::panic::catch_unwind(|| {
+            use warp_math::Scalar;
+            let (s, c) = warp_math::scalar::F32Scalar::new(f32::from_bits(bits)).sin_cos();
+            format!("(sin,cos)=(0x{:08x},0x{:08x})", s.to_f32().to_bits(), c.to_f32().to_bits())
+        });
+        nonfinite_trig.insert(nm.into(), json!(r.unwrap_or_else(|_| "panic (debug_assert in sin_cos_f32)".into())));
+    }
+
+    let blocks: Vec<Value> = results
+        .iter()
+        .map(|r| {
+            let mut m = serde_json::Map::new();
+            m.insert("s".into(), json!(r.scope.as_str()));
+            m.insert("op".into(), json!(r.op));
+            m.insert("b".into(), json!(r.b));
+            m.insert("n".into(), json!(r.n));
+            m.insert("d".into(), json!(r.d));
+            if let (Some(dn), Some(dr)) = (&r.dn, &r.dr) {
+                m.insert("dn".into(), json!(dn));
+                m.insert("dr".into(), json!(dr));
+                m.insert("nonfinite".into(), json!(r.nonfinite));
+            }
+            m.insert("panics".into(), json!(r.panics));
+            m.insert("skipped".into(), json!(r.skipped));
+            Value::Object(m)
+        })
+        .collect();
+    let hits: Vec<Value> = mon
+        .hits
+        .iter()
+        .map(|((op, class), (n, ex))| json!({"op": op, "class": class, "count": n, "examples": ex}))
+        .collect();
+    let checked: serde_json::Map<String, Value> = RULE_NAMES.iter().zip(mon.checked.iter()).map(|(k, v)| ((*k).to_owned(), json!(v))).collect();
+    let body = json!({
+        "build": {"debug_assertions": cfg!(debug_assertions), "miri": cfg!(miri), "lanes": lanes()},
+        "seed": args.seed,
+        "scopes": scopes.iter().map(|s| s.as_str()).collect::<Vec<_>>(),
+        "input_set_digests": spaces.iter().map(|sp| json!({"scope": sp.scope.as_str(), "digest": input_set_digest(sp),
+            "interesting_f32": sp.iset.len(), "interesting_f32_finite": sp.ifin.len(), "interesting_q32": sp.jset.len(), "edge_values": sp.edges.len()})).collect::<Vec<_>>(),
+        "ops": OPS.iter().map(|o| json!({"name": o.name, "family": format!("{:?}", o.fam), "words_out": o.wout, "words_in": fam_win(o.fam), "split": o.split, "what": o.what})).collect::<Vec<_>>(),
+        "blocks": blocks,
+        "monitor_checked": checked,
+        "monitor_hits": hits,
+        "nonfinite_trig": nonfinite_trig,
+        "wall_s": t0.elapsed().as_secs_f64(),
+    });
+    match std::fs::write(out, serde_json::to_string(&body).unwrap_or_default()) {
+        Ok(()) => 0,
+        Err(e) => {
+            println!("HARNESS-ERROR cannot write {out}: {e}");
+            2
+        }
+    }
+}
+
+fn lanes() -> Vec<&'static str> {
+    let mut v = vec!["det_float (F32Scalar)"];
+    if cfg!(feature = "det_fixed") {
+        v.push("det_fixed (DFix64)");
+    }
+    v
+}
+
+fn dump(args: &Args) -> i32 {
+    use std::io::Write;
+    let (Some(scope), Some(op), Some(out)) = (
+        args.extra.get("scope").and_then(|s| scope_of(s)),
+        args.extra.get("op").and_then(|s| op_by_name(s)),
+        args.extra.get("out"),
+    ) else {
+        println!("HARNESS-ERROR dump needs --scope --op --block --out");
+        return 2;
+    };
+    let b: u64 = args.extra.get("block").and_then(|s| s.parse().ok()).unwrap_or(0);
+    let sp = Spaces::new(scope, args.seed);
+    let Ok(file) = std::fs::File::create(out) else {
+        println!("HARNESS-ERROR cannot create {out}");
+        return 2;
+    };
+    let mut w = std::io::BufWriter::new(file);
+    let mut mon = Mon::default();
+    let mut ok = true;
+    run_block(&sp, op, b, &mut mon, |status, class, words, _| {
+        for (k, (s, c)) in status.iter().zip(class).enumerate() {
+            ok &= w.write_all(&[*s, *c, 0, 0]).is_ok();
+            ok &= w.write_all(as_bytes(&words[k * op.wout..(k + 1) * op.wout])).is_ok();
+        }
+    });
+    ok &= w.flush().is_ok();
+    if ok {
+        0
+    } else {
+        println!("HARNESS-ERROR write failed");
+        2
+    }
+}
+
+fn f32_repr(b: u32) -> String {
+    format!("{:e}", f32::from_bits(b))
+}
+
+fn explain(args: &Args) -> i32 {
+    let (Some(scope), Some(op)) = (args.extra.get("scope").and_then(|s| scope_of(s)), args.extra.get("op").and_then(|s| op_by_name(s))) else {
+        println!("HARNESS-ERROR explain needs --scope --op");
+        return 2;
+    };
+    let mut inp = [0u32; MAX_IN];
+    let w = fam_win(op.fam);
+    let mut class = CL_FINITE;
+    if let Some(list) = args.extra.get("inputs") {
+        for (k, h) in list.split(',').enumerate().take(w) {
+            inp[k] = u32::from_str_radix(h.trim_start_matches("0x"), 16).unwrap_or(0);
+        }
+    } else {
+        let sp = Spaces::new(scope, args.seed);
+        let b: u64 = args.extra.get("block").and_then(|s| s.parse().ok()).unwrap_or(0);
+        let i: u64 = args.extra.get("index").and_then(|s| s.parse().ok()).unwrap_or(0);
+        if b >= fam_blocks(&sp, op.fam) || i >= fam_block_len(&sp, op.fam, b) {
+            println!("HARNESS-ERROR block/index out of range");
+            return 2;
+        }
+        class = fam_input(&sp, op.fam, b, i, &mut inp);
+    }
+    let (status, out, mon, msg) = run_one(op, &inp[..w]);
+    let body = json!({
+        "op": op.name,
+        "what": op.what,
+        "debug_assertions": cfg!(debug_assertions),
+        "inputs": inp[..w].iter().map(|b| format!("{b:08x}")).collect::<Vec<_>>(),
+        "inputs_f32": inp[..w].iter().map(|b| f32_repr(*b)).collect::<Vec<_>>(),
+        "class": if class == CL_FINITE { "finite-inputs" } else { "nonfinite-input" },
+        "status": match status { ST_OK => "ok", ST_PANIC => "panic", _ => "skipped (input outside documented domain)" },
+        "panic_message": msg,
+        "outputs": out.iter().map(|b| format!("{b:08x}")).collect::<Vec<_>>(),
+        "outputs_f32": out.iter().map(|b| f32_repr(*b)).collect::<Vec<_>>(),
+        "monitor_hits": mon.hits.iter().map(|((o, c), (_, ex))| json!({"op": o, "class": c, "examples": ex})).collect::<Vec<_>>(),
+    });
+    println!("{}", serde_json::to_string(&body).unwrap_or_default());
+    0
+}
+
+fn report(args: &Args) -> i32 {
+    let Some(path) = args.extra.get("summary") else {
+        println!("HARNESS-ERROR report needs --summary");
+        return 2;
+    };
+    let Some(s) = std::fs::read_to_string(path).ok().and_then(|t| serde_json::from_str::<Value>(&t).ok()) else {
+        println!("HARNESS-ERROR cannot read summary {path}");
+        return 2;
+    };
+    let mut rep = Report::new(args, s["level"].as_str().unwrap_or("exploration"), s["rule"].as_str().unwrap_or(""));
+    rep.evals(s["evaluations"].as_u64().unwrap_or(0));
+    rep.nontrivial_enumerated(s["distinct_enumerated"].as_u64().unwrap_or(0));
+    if let Some(b) = s["exhaustive"].as_bool() {
+        rep.exhaustive(b);
+    }
+    if let Some(m) = s["counters"].as_object() {
+        for (k, v) in m {
+            rep.count(k, v.as_u64().unwrap_or(0));
+        }
+    }
+    if let Some(m) = s["sets"].as_object() {
+        for (k, v) in m {
+            for x in v.as_array().into_iter().flatten() {
+                rep.observe(k, x.as_str().unwrap_or(""));
+            }
+        }
+    }
+    if let Some(m) = s["fields"].as_object() {
+        for (k, v) in m {
+            rep.set(k, v.clone());
+        }
+    }
+    for x in s["samples"].as_array().into_iter().flatten() {
+        rep.sample(x.clone());
+    }
+    for x in s["assumptions"].as_array().into_iter().flatten() {
+        rep.assumption(x.as_str().unwrap_or(""));
+    }
+    for x in s["inconclusive"].as_array().into_iter().flatten() {
+        rep.inconclusive(x.as_str().unwrap_or("unspecified"));
+    }
+    for v in s["violations"].as_array().into_iter().flatten() {
+        rep.violation(v["signature"].as_str().unwrap_or("C19:unspecified"), v["what"].as_str().unwrap_or(""), v["replay"].clone());
+    }
+    rep.finish(s["floor"].as_u64().unwrap_or(1000))
+}
